@@ -41,7 +41,7 @@ def main():
             meta = os.path.join(sdir, d, "meta.json")
             if os.path.exists(meta):
                 m = json.load(open(meta))
-                items.append((d, os.path.join(sdir, d, "patch.diff"), m.get("summary", ""), [m.get("property")]))
+                items.append((d, os.path.join(sdir, d, "patch.diff"), m.get("summary", ""), m.get("expected_checks") or [m.get("property")]))
     results = {}
     res_path = f"{VERIF}/mutants/results.json"
     if os.path.exists(res_path):
